@@ -511,7 +511,7 @@ static int repair(struct snapraid_state* state, int rehash, unsigned pos, unsign
 			something_unsynced = 1;
 
 			if (block_state == BLOCK_STATE_CHG
-				&& hash_is_zero(failed[j].block->hash)
+				&& hash_maybe_special(failed[j].block->hash, 0xFF)
 			) {
 				/* If the block was a ZERO block, restore it to the original 0 as before the 'sync' */
 				/* We do this to just allow recovering of other BLK ones */
